@@ -152,7 +152,30 @@ macro_rules! exec_encode_impl {
     let u = a.into_uncompressed();
     let c2 = <<$A as CurveAffine>::Compressed>::from_affine(a);
     let u2 = <<$A as CurveAffine>::Uncompressed>::from_affine(a);
+    // the stream writers of both point types, into a vector, into sinks that take the bytes in pieces,
+    // and into slices that are too small
+    let pj: $G = if op.get("pj").is_some() { j_to_proj::<$G>(&op["pj"]) } else { a.into_projective() };
+    let mut ser = vec![];
+    for comp in [true, false].iter() {
+        let n = if *comp { c.as_ref().len() } else { u.as_ref().len() };
+        for kind in [0usize, 1, 7, 95, 1000, 1001].iter() {
+            for ty in ["aff", "proj"].iter() {
+                let (res, bytes, k) = if *kind < 1000 {
+                    let mut w = ChunkWr { buf: vec![], chunk: if *kind == 0 { usize::MAX } else { *kind } };
+                    let r = if *ty == "aff" { a.serialize(&mut w, *comp) } else { pj.serialize(&mut w, *comp) };
+                    (r.is_ok(), w.buf, if *kind == 0 { "vec" } else { "chunked" })
+                } else {
+                    let mut space = vec![0u8; if *kind == 1000 { n - 1 } else { n / 2 }];
+                    let mut sl: &mut [u8] = &mut space[..];
+                    let r = if *ty == "aff" { a.serialize(&mut sl, *comp) } else { pj.serialize(&mut sl, *comp) };
+                    (r.is_ok(), vec![], "too-small")
+                };
+                ser.push(json!({"ty": ty, "c": comp, "kind": k, "res": if res {"ok"} else {"err"}, "bytes": bytes_to_j(&bytes)}));
+            }
+        }
+    }
     json!({
+        "ser": ser,
         "aff": aff_to_j(&a),
         "c_from_affine": bytes_to_j(c2.as_ref()), "u_from_affine": bytes_to_j(u2.as_ref()),
         "c": bytes_to_j(c.as_ref()), "u": bytes_to_j(u.as_ref()),
@@ -249,6 +272,24 @@ macro_rules! exec_prod_impl {
             let mut t = a; t.add_assign(&a); v.push(t);
             let mut t = a; t.sub_assign(&a); v.push(t);
             v.push(a.into_affine().into_projective());
+            // operands that share their Z: a + b with a - b (projective and mixed), both orders
+            let (mut s, mut d) = (a, a);
+            s.add_assign(&b);
+            d.sub_assign(&b);
+            let mut t = s; t.add_assign(&d); v.push(t);
+            let mut t = d; t.sub_assign(&s); v.push(t);
+            let ba = b.into_affine();
+            let (mut s, mut d) = (a, a);
+            s.add_assign_mixed(&ba);
+            d.sub_assign_mixed(&ba);
+            let mut t = s; t.add_assign(&d); v.push(t);
+            let mut t = s; t.sub_assign(&d); v.push(t);
+            // a + b against b + a (same point, opposite Z) and doubles of opposite points
+            let (mut x, mut y) = (a, b);
+            x.add_assign(&b);
+            y.add_assign(&a);
+            let mut t = x; t.sub_assign(&y); v.push(t);
+            let mut t = x; t.add_assign(&y); v.push(t);
             v
         }
         // batch normalization of a slice mixing normalized, un-normalized and identity entries
@@ -426,6 +467,72 @@ where
     }
 }
 
+/// two decodes that depend on each other's progress: thread A decodes from a reader that blocks until
+/// thread B - after its own decode of `b` from memory - delivers A's bytes.  A library that holds a
+/// lock (or any other shared resource) while it sits in the caller's reader never finishes this.
+fn pipe_decode<T, F>(a: Vec<u8>, b: Vec<u8>, c: bool, show: F) -> Value
+where
+    T: SerDes + Send + 'static,
+    F: Fn(&T) -> Value + Send + Sync + Copy + 'static,
+{
+    use std::sync::mpsc;
+    use std::time::Duration;
+    struct ChanRd {
+        rx: mpsc::Receiver<Vec<u8>>,
+        started: Option<mpsc::Sender<()>>,
+        buf: Vec<u8>,
+    }
+    impl std::io::Read for ChanRd {
+        fn read(&mut self, out: &mut [u8]) -> std::io::Result<usize> {
+            if let Some(s) = self.started.take() {
+                let _ = s.send(());
+            }
+            if self.buf.is_empty() {
+                match self.rx.recv_timeout(Duration::from_secs(20)) {
+                    Ok(v) => self.buf = v,
+                    Err(_) => return Ok(0),
+                }
+            }
+            let n = std::cmp::min(out.len(), self.buf.len());
+            out[..n].copy_from_slice(&self.buf[..n]);
+            self.buf.drain(..n);
+            Ok(n)
+        }
+    }
+    let (tx_bytes, rx_bytes) = mpsc::channel::<Vec<u8>>();
+    let (tx_started, rx_started) = mpsc::channel::<()>();
+    let (tx_res, rx_res) = mpsc::channel::<(char, Value)>();
+    let n = a.len();
+    let ta = tx_res.clone();
+    std::thread::spawn(move || {
+        let mut rd = ChanRd { rx: rx_bytes, started: Some(tx_started), buf: vec![] };
+        let r = T::deserialize(&mut rd, c);
+        let v = json!({"ty": "x", "consumed": n, "res": match r { Ok(p) => json!(["ok", show(&p)]), Err(_) => json!(["err"]) }});
+        let _ = ta.send(('a', v));
+    });
+    let tb = tx_res;
+    std::thread::spawn(move || {
+        let _ = rx_started.recv_timeout(Duration::from_secs(5));
+        let mut sl: &[u8] = &b[..];
+        let before = sl.len();
+        let r = T::deserialize(&mut sl, c);
+        let v = json!({"ty": "x", "consumed": before - sl.len(), "res": match r { Ok(p) => json!(["ok", show(&p)]), Err(_) => json!(["err"]) }});
+        let _ = tx_bytes.send(a);
+        let _ = tb.send(('b', v));
+    });
+    let mut ra = json!(false);
+    let mut rb = json!(false);
+    let mut timeout = false;
+    for _ in 0..2 {
+        match rx_res.recv_timeout(Duration::from_secs(8)) {
+            Ok(('a', v)) => ra = v,
+            Ok((_, v)) => rb = v,
+            Err(_) => { timeout = true; break; }
+        }
+    }
+    json!({"a": ra, "b": rb, "timeout": timeout})
+}
+
 /// a sink that accepts at most `chunk` bytes per write call (pipes and sockets do that)
 struct ChunkWr {
     buf: Vec<u8>,
@@ -538,6 +645,22 @@ fn exec_stream(st: &mut MiscState, op: &Value) -> Value {
 pub fn exec_misc(st: &mut MiscState, op: &Value) -> Value {
     let g = op["g"].as_str().unwrap_or("");
     match op["op"].as_str().unwrap() {
+        "pipe" => {
+            let (a, b) = (j_to_bytes(&op["a"]), j_to_bytes(&op["b"]));
+            let c = op["form"] == "c";
+            let mut v = match (g, op["kind"].as_str().unwrap()) {
+                ("G1", "aff") => pipe_decode::<G1Affine, _>(a, b, c, |p| aff_to_j(p)),
+                ("G1", _) => pipe_decode::<G1, _>(a, b, c, |p| proj_to_j(p)),
+                ("G2", "aff") => pipe_decode::<G2Affine, _>(a, b, c, |p| aff_to_j(p)),
+                _ => pipe_decode::<G2, _>(a, b, c, |p| proj_to_j(p)),
+            };
+            for k in ["a", "b"].iter() {
+                if let Some(o) = v[*k].as_object_mut() {
+                    o.insert("ty".into(), op["kind"].clone());
+                }
+            }
+            v
+        }
         "decode" => exec_decode(g, op),
         "encode" => match g {
             "G1" => exec_encode_g1(op),
